@@ -582,6 +582,9 @@ func Run(c *evid.Ctx) {
 	readWindow(c)
 	suppression(c)
 	shard.Spawn(c, 16, true)
+	// the premise of the enumeration above (atomic blocks = data-race-free code) is checked in the
+	// race mode of the explorer (race.go)
+	shard.SpawnRace(c, 4)
 	c.Cov["traces_validated_against_impl"] = c.Counter("states")
 	c.Count("distinct_nontrivial", c.Counter("evaluations"))
 	c.Cov["rule"] = "lines/rotation: states = complete schedules of 1-2 logging goroutines, the rotation cycle and a clock thread that carries virtual time across midnight, on an in-memory file system where every file operation is a scheduling point; each execution's files are read back: every line that passed the level and interval gates exactly once, whole, per-thread order, file names, new-day lines after a completed cycle in the new file; retention: every 1- and 2-file directory, the full 13-name directory and its 13 one-less variants x 3 clocks x 3 keep-days x rotation on/off; read window: 4 sizes x 6 end positions x 7 lengths x 7 names"
